@@ -7,8 +7,12 @@ mkdir -p .cache evidence replay
 cd coq
 coq_makefile -f _CoqProject -o Makefile $(find . -name '*.v' | sed 's|^\./||' | sort) >/dev/null
 find . -name '*.v' | sed 's|^\./||' | sort | python3 -c "import sys,hashlib;print(hashlib.sha256('\n'.join(l.strip() for l in sys.stdin).encode()).hexdigest(),end='')" > .files.stamp
-timeout 7200 make -j16 >/dev/null 2>../.cache/coq-build.log || { tail -50 ../.cache/coq-build.log; exit 1; }
+# -k: one property's broken file must not take the others down (each check rebuilds its own closure)
+timeout 7200 make -k -j16 >/dev/null 2>../.cache/coq-build.log || { tail -30 ../.cache/coq-build.log; echo "(some Coq files failed in setup; each check rebuilds its own closure)"; }
 cd ../harness
 cp /repo/Cargo.lock Cargo.lock 2>/dev/null || true
-timeout 7200 cargo build --offline --release --bins 2>../.cache/cargo-build.log >/dev/null || { tail -50 ../.cache/cargo-build.log; echo "(harness build failed in setup; each check rebuilds its own binary)"; }
+for b in src/bin/*.rs; do
+  n=$(basename "$b" .rs)
+  timeout 3600 cargo build --offline --release --bin "$n" 2>>../.cache/cargo-build.log >/dev/null || echo "(harness bin $n failed to build in setup; its check rebuilds it)"
+done
 echo setup-ok
